@@ -73,6 +73,9 @@ def directional_check(ctx, cost, x, grad, v, bucket, what, rtol=1e-6, atol=0.0):
     ctx.require(np.isfinite(pred) and ok, bucket, '%s: Re<grad,v>=%.10g but directional derivative=%r (rel mismatch %.3g)' % (what, pred, cands, best))
 
 
+_MAG = st.sampled_from([0, 0, 0, -9, 12, -30, 60, -100])
+
+
 def _shift():
     sh = st.one_of(st.just(0), st.integers(-3, 3), st.integers(-6, 6).map(lambda k: k / 2), U.nice_float(-4, 4).map(lambda v: round(v, 3)))
     return st.one_of(st.just([0, 0]), st.tuples(sh, sh).map(list))
@@ -88,7 +91,7 @@ def strat_mdft(tier):
     nmax = {'quick': 12, 'thorough': 32}[tier]
     ax = U.axis_len(nmax)
     return st.fixed_dictionaries({'shape': st.tuples(ax, ax).map(list), 'out': st.one_of(st.tuples(ax, ax).map(list), ax),
-                                  'Q': _Q(), 'shift': _shift(), 'fwd': st.booleans(), 'layout': U.layouts, 'seed': U.seeds})
+                                  'Q': _Q(), 'shift': _shift(), 'fwd': st.booleans(), 'layout': U.layouts, 'seed': U.seeds, 'mags': st.tuples(_MAG, _MAG).map(list)})
 
 
 def check_mdft(case, ctx):
@@ -97,8 +100,11 @@ def check_mdft(case, ctx):
     _reset()
     shape, out, Q, shift, fwd = tuple(case['shape']), U.tup(case['out']), U.tup(case['Q']), tuple(case['shift']), case['fwd']
     outp = U.as_pair(out)
-    x = U.relayout(U.field(case['seed'], shape, 'complex', 1), case.get('layout', 'C'))
-    y = U.relayout(U.field(case['seed'], outp, 'complex', 2), case.get('layout', 'C'))
+    mx, my = case.get('mags', [0, 0])      # decimal exponents: the adjoint identity is homogeneous in x and in y separately
+    x = U.relayout(U.field(case['seed'], shape, 'complex', 1) * 10.0 ** mx, case.get('layout', 'C'))
+    y = U.relayout(U.field(case['seed'], outp, 'complex', 2) * 10.0 ** my, case.get('layout', 'C'))
+    if mx or my:
+        ctx.label('scaled-fields')
     shifted = any(s != 0 for s in shift)
     ctx.nt(shape[0] != shape[1] or shifted or outp != shape)
     ctx.label('fwd' if fwd else 'inv', 'shifted' if shifted else 'unshifted', 'square' if shape[0] == shape[1] else 'nonsquare')
@@ -123,7 +129,8 @@ def strat_fixed(tier):
     return st.fixed_dictionaries({'shape': st.one_of(st.tuples(ax, ax).map(list), ax.map(lambda k: [k, k])),
                                   'out': st.one_of(st.tuples(ax, ax).map(list), ax.map(lambda k: [k, k])),
                                   'Q': U.nice_float(0.4, 4).map(lambda v: round(v, 3)), 'shift': _shift(), 'phys': _phys(),
-                                  'which': st.sampled_from(['focus', 'focus-wavefront', 'unfocus']), 'layout': U.layouts, 'seed': U.seeds})
+                                  'which': st.sampled_from(['focus', 'focus-wavefront', 'unfocus']), 'layout': U.layouts, 'seed': U.seeds,
+                                  'mags': st.tuples(_MAG, _MAG).map(list)})
 
 
 def check_fixed(case, ctx):
@@ -135,8 +142,11 @@ def check_fixed(case, ctx):
     lam, efl = ph['wvl'], ph['efl']
     if which == 'focus-wavefront':
         out = (out[0], out[0])
-    x = U.relayout(U.field(case['seed'], shape, 'complex', 1), case.get('layout', 'C'))
-    y = U.relayout(U.field(case['seed'], out, 'complex', 2), case.get('layout', 'C'))
+    mx, my = case.get('mags', [0, 0])      # decimal exponents: the adjoint identity is homogeneous in x and in y separately
+    x = U.relayout(U.field(case['seed'], shape, 'complex', 1) * 10.0 ** mx, case.get('layout', 'C'))
+    y = U.relayout(U.field(case['seed'], out, 'complex', 2) * 10.0 ** my, case.get('layout', 'C'))
+    if mx or my:
+        ctx.label('scaled-fields')
     if which.startswith('focus'):
         dx_in = ph['dx']
         dx_out = lam * efl / (shape[1] * dx_in * case['Q'])
@@ -174,7 +184,8 @@ def strat_fpm(tier):
         'same': st.booleans(),
         'Q': U.nice_float(0.4, 4).map(lambda v: round(v, 3)), 'shift': _shift(), 'phys': _phys(),
         'mkind': st.sampled_from(['real', 'complex', 'binary']), 'lyot': st.sampled_from(['none', 'real', 'complex']),
-        'which': st.sampled_from(['function', 'wavefront', 'wavefront-maskwf', 'babinet', 'babinet']), 'layout': U.layouts, 'seed': U.seeds})
+        'which': st.sampled_from(['function', 'wavefront', 'wavefront-maskwf', 'babinet', 'babinet']), 'layout': U.layouts, 'seed': U.seeds,
+        'mags': st.tuples(_MAG, _MAG).map(list)})
 
 
 def check_fpm(case, ctx):
@@ -193,8 +204,11 @@ def check_fpm(case, ctx):
     else:
         m = r.uniform(0, 1, mshape) * np.exp(2j * np.pi * r.uniform(0, 1, mshape))
     fpm_dx = lam * efl / (shape[1] * dx * case['Q'])
-    x = U.relayout(U.field(case['seed'], shape, 'complex', 1), case.get('layout', 'C'))
-    y = U.relayout(U.field(case['seed'], shape, 'complex', 2), case.get('layout', 'C'))
+    mx, my = case.get('mags', [0, 0])      # decimal exponents: the adjoint identity is homogeneous in x and in y separately
+    x = U.relayout(U.field(case['seed'], shape, 'complex', 1) * 10.0 ** mx, case.get('layout', 'C'))
+    y = U.relayout(U.field(case['seed'], shape, 'complex', 2) * 10.0 ** my, case.get('layout', 'C'))
+    if mx or my:
+        ctx.label('scaled-fields')
     m = U.relayout(m, case.get('layout', 'C'))
     sh = (case['shift'][0] * fpm_dx, case['shift'][1] * fpm_dx)
     if which.startswith('babinet'):
